@@ -106,7 +106,21 @@ def validate_window_traces(items, timeout=900, pool=None):
             lines.extend(json.dumps(e) for e in res["events"] if e["ev"] in WIN_EVENTS)
         ok, reached, total, r = core.validate_events("Trace_EncWindow", consts, lines, invariants=TRACE_INV, timeout=timeout)
         nxt = lines[reached] if (reached is not None and reached < len(lines)) else None
-        return dict(consts=consts, n=len(lst), ok=ok, reached=reached, total=total, next=nxt,
+        observed = None
+        if not ok and nxt and '"New"' in nxt:
+            # the window was constructed with other constants than the as-built design says: validate once more with the
+            # OBSERVED constants, so that the drift note can say which design property the real indices break (if any)
+            e = json.loads(nxt)
+            c2 = dict(consts, PassExtra="FALSE", ModeBefore=str(e["kb"] - e["dict"]), ExtraAfter=str(e["ka"] - e["mm"]),
+                      Reserve=str(e["bs"] - e["kb"] - e["ka"]))
+            try:
+                ok2, reached2, total2, r2 = core.validate_events("Trace_EncWindow", c2, lines, invariants=TRACE_INV, timeout=timeout)
+                observed = ("explained by the observed constants keep_size_before=%d keep_size_after=%d buf_size=%d" % (e["kb"], e["ka"], e["bs"])
+                            if ok2 else "with the observed constants (keep_size_before=%d keep_size_after=%d): %s after event %s" %
+                            (e["kb"], e["ka"], r2.violated, reached2))
+            except ToolError as x:
+                observed = "re-validation with the observed constants failed: " + str(x)[:200]
+        return dict(consts=consts, n=len(lst), ok=ok, reached=reached, total=total, next=nxt, observed=observed,
                     violated=r.violated, ids=[j["id"] for j, _ in lst], r=r, events=len(lines))
 
     own = pool is None
